@@ -32,6 +32,14 @@ def units(tier):
         us.append(Unit(H.ReshuffleEltoritoEntry, {'platform': plat, 'seen': seen}))
     # whole images: MBR / GPT decoded independently on the written image, boot files moving after add_isohybrid
     from contracts import boot as B
+    import os
+    base = int(os.environ.get('VERIF_SEED', '0') or 0) * 1000 if tier != 'quick' else 0
+    for k in range(1, 4 if tier == 'quick' else 31):
+        # random add_isohybrid parameters (geometry, slot, type, offset, id, EFI / Mac) and later edits
+        v = 'random:%d' % (base + k)
+        us.append(Unit(B.HybridImage, {'variant': v}))
+        if not (B.random_hybrid(v)[1].get('efi') or B.random_hybrid(v)[1].get('mac')):
+            us.append(Unit(B.HybridImage, {'variant': v, 'reopen': True}))
     for v in sorted(B.HYBRIDS):
         us.append(Unit(B.HybridImage, {'variant': v}))
         if v == 'efi-mac' or (v == 'efi' and tier == 'quick'):
